@@ -16,7 +16,13 @@ def build(c):
 
     v = np.array(c["vals"]).astype(c.get("dtype", "float64"))
     lab = np.array(c["labels"])
-    arr = da.from_array(v, chunks=(tuple(c["chunks"]),)) if c.get("chunks") else v
+    if c.get("shape"):
+        # n-d request: values and labels of the same shape, the same chunks on every axis
+        v = v.reshape(c["shape"])
+        lab = lab.reshape(c["shape"])
+        arr = da.from_array(v, chunks=tuple(tuple(c["chunks"]) for _ in c["shape"])) if c.get("chunks") else v
+    else:
+        arr = da.from_array(v, chunks=(tuple(c["chunks"]),)) if c.get("chunks") else v
     if c["kind"] == "scan":
         return flox.groupby_scan(arr, lab, func=c["func"])
     kw = {}
@@ -24,6 +30,8 @@ def build(c):
         kw["finalize_kwargs"] = {"ddof": c["ddof"]}
     if c.get("out_dtype"):
         kw["dtype"] = c["out_dtype"]
+    if c.get("axis") is not None:
+        kw["axis"] = c["axis"]
     r, _ = flox.groupby_reduce(arr, lab, func=c["func"], method=c.get("method"), expected_groups=np.array([0, 1, 2]),
                                fill_value=c.get("fill_value", -1), **kw)
     return r
